@@ -45,13 +45,16 @@ Definition kping (s : kstate) (t : N) : kstate * kout :=
   else if await s then (kclean s, ErrAwait t)
   else (mkK (deadline s) true (coll s) cpc', PingReqAt t).
 
-Definition kstep (ka : N) (s : kstate) (e : kev) : kstate * list kout :=
+(** [zero_guard]: the timer is only created when keep_alive != 0.  True for the v4 loop, and for
+    the v5 loop since the fix: commit 30fc7fa; before it the v5 loop created (and polled) the timer
+    unconditionally, and the server can assign keep alive 0 in CONNACK (finding F32). *)
+Definition kstep_gen (zero_guard : bool) (ka : N) (s : kstate) (e : kev) : kstate * list kout :=
   match e with
   | Connect t =>
       (* poll(): `if keepalive_timeout.is_none() && !keep_alive.is_zero()` *)
       (mkK (match deadline s with
             | Some d => Some d
-            | None => if ka =? 0 then None else Some (t + ka)
+            | None => if zero_guard && (ka =? 0) then None else Some (t + ka)
             end) (await s) (coll s) (cpc s), [])
   | Tick t =>
       match deadline s with
@@ -68,11 +71,16 @@ Definition kstep (ka : N) (s : kstate) (e : kev) : kstate * list kout :=
   | Resolved _ => (mkK (deadline s) (await s) false 0, [])
   end.
 
-Fixpoint krun (ka : N) (s : kstate) (tr : list kev) : kstate * list kout :=
+Definition kstep := kstep_gen true.
+Definition kstep_v5_orig := kstep_gen false.
+
+Fixpoint krun_gen (stp : N -> kstate -> kev -> kstate * list kout) (ka : N) (s : kstate) (tr : list kev) : kstate * list kout :=
   match tr with
   | [] => (s, [])
-  | e :: r => let (s1, o1) := kstep ka s e in let (s2, o2) := krun ka s1 r in (s2, o1 ++ o2)
+  | e :: r => let (s1, o1) := stp ka s e in let (s2, o2) := krun_gen stp ka s1 r in (s2, o1 ++ o2)
   end.
+Definition krun := krun_gen kstep.
+Definition krun_v5_orig := krun_gen kstep_v5_orig.
 
 (** "prompt polling": poll() is called again as soon as it returns, so nothing is handled after a
     pending deadline before the timer arm has run — no event overshoots the deadline *)
@@ -90,11 +98,12 @@ Definition is_ping (o : kout) : bool := match o with PingReqAt _ => true | _ => 
 Definition ping_time (o : kout) : N := match o with PingReqAt t | ErrAwait t | ErrCollision t => t end.
 
 (** the connect step of poll(): `timeout(connection_timeout, connect(..))`.  [handshake] = the
-    virtual time the handshake takes, None = it never completes.  tokio polls the inner future
-    first, so a handshake completing exactly at the limit wins. *)
+    virtual time the handshake takes, None = it never completes.  A handshake completing at exactly
+    the limit races with the timer (observed on the real loop: the timeout wins when the broker's
+    answer is produced in that same instant); the theorems only speak about the strict cases. *)
 Inductive conn_result := Connected (at_ms : N) | NetworkTimeout (at_ms : N).
 Definition poll_connect (timeout_ms : N) (handshake : option N) : conn_result :=
   match handshake with
-  | Some h => if h <=? timeout_ms then Connected h else NetworkTimeout timeout_ms
+  | Some h => if h <? timeout_ms then Connected h else NetworkTimeout timeout_ms
   | None => NetworkTimeout timeout_ms
   end.
